@@ -1,6 +1,7 @@
 """Symbolic test world shared by the harnesses: layers whose hooks record
 events (and raise on demand), tests with an outcome *kind*, an event trace
 tagged with a logical process id."""
+import functools
 import sys
 import unittest
 
@@ -70,7 +71,7 @@ SU_OK, SU_RAISE = 0, 1
 TD_OK, TD_RAISE, TD_NIE = 0, 1, 2
 
 
-def mk_layer(name, bases=(), su=0, td=0, hooks='stST', tsu=0, ttd=0, instance=False, module='w'):
+def mk_layer(name, bases=(), su=0, td=0, hooks='stST', tsu=0, ttd=0, instance=False, module='w', falsy=False):
     """hooks: s=setUp t=tearDown S=testSetUp T=testTearDown present."""
     def setUp(self=None):
         ev('su', name)
@@ -117,8 +118,11 @@ def mk_layer(name, bases=(), su=0, td=0, hooks='stST', tsu=0, ttd=0, instance=Fa
             def __repr__(self):
                 return '<ilayer %s>' % name
 
+
             def __ch_deep_realize__(self, memo):
                 return self
+        if falsy:          # a layer object that doubles as an (empty) resource registry: len() == 0, bool() is False
+            InstanceLayer.__len__ = lambda self: 0
         L = InstanceLayer()
         for h in hooks:
             n, f = fns[h]
@@ -127,6 +131,12 @@ def mk_layer(name, bases=(), su=0, td=0, hooks='stST', tsu=0, ttd=0, instance=Fa
     for h in hooks:
         n, f = fns[h]
         ns[n] = classmethod(f)
+    # su == 3 / td == 4: the hook is a C callable that raises - the traceback of the failure contains no frame outside
+    # the runner's own module (also what a hook written without @classmethod produces: TypeError at the call)
+    if su == 3 and 's' in hooks:
+        ns['setUp'] = staticmethod(functools.partial(int, 'su ' + name))
+    if td == 4 and 't' in hooks:
+        ns['tearDown'] = staticmethod(functools.partial(int, 'td ' + name))
     L = type(name, tuple(bases) or (object,), ns)
     L.__module__ = module
     return L
